@@ -7,7 +7,16 @@ A *symbolic* history names events by handle (["live", k] = k-th live id of the b
 order, ["foreign", k], ["dead", k], ["gone", k]); it is resolved against the implementation's
 own dumps while it runs, which yields the *concrete* history (wire ops with real ids) that
 is then fed to the model of that back end.  Labels: strings "" <-> 0, "s<n>" <-> n; data {}
-<-> 0, {"x": n} <-> n; created <-> seconds after BASE."""
+<-> 0, {"x": n} <-> n; created <-> seconds after BASE.
+
+Round 2 additions (all optional, the former API is unchanged):
+  * layer "datastore": the same histories issued THROUGH aw_datastore.Datastore / Bucket (the public
+    API: Bucket.insert(Event | list), Bucket.replace, ...) instead of on the storage object; the model
+    side is Model/Datastore.v under Model/DatastoreApi.v (driver ExC02ds, case tag 30);
+  * events passed to replace / replace_last may carry an id of their own (any handle kind);
+  * object identity: a symbolic event may carry a 5th element ["obj", "passed"|"got", k] = "pass the
+    very Event OBJECT that was passed to / returned by an earlier call of this run" (no fresh copy); its
+    value at the time of the call is what the wire op (and so the model, which has no aliasing) sees."""
 import multiprocessing
 import os
 import shutil
@@ -106,6 +115,90 @@ def close_storage(backend, st, tmpdir, n):
                 pass
 
 
+LAYERS = ["storage", "datastore"]
+
+
+class ViaDatastore:
+    """AbstractStorage-shaped facade over the PUBLIC API: every call goes through
+    aw_datastore.Datastore (bucket lifecycle) or through a Bucket object (everything addressed to one
+    bucket), as a client of the library does.  The Bucket object is the one create_bucket handed back;
+    for a bucket this client never created (or deleted meanwhile) it is a Bucket built from the bare id
+    (a handle that went stale) - a Bucket holds nothing but its id, so the storage decides."""
+
+    def __init__(self, ds):
+        self.ds = ds
+        self.raw = ds.storage_strategy
+        self.handles = {}
+
+    def _bucket(self, bid):
+        h = self.handles.get(bid)
+        if h is None:
+            from aw_datastore.datastore import Bucket
+            h = Bucket(self.ds, bid)
+        return h
+
+    def create_bucket(self, bid, type_id, client, hostname, created, name=None, data=None):
+        b = self.ds.create_bucket(bid, type_id, client, hostname, created=datetime.fromisoformat(created),
+                                  name=name, data=data)
+        self.handles[bid] = b
+        return b
+
+    def update_bucket(self, bid, type_id=None, client=None, hostname=None, name=None, data=None):
+        return self.ds.update_bucket(bid, type_id=type_id, client=client, hostname=hostname, name=name, data=data)
+
+    def delete_bucket(self, bid):
+        self.handles.pop(bid, None)
+        return self.ds.delete_bucket(bid)
+
+    def buckets(self):
+        return self.ds.buckets()
+
+    def get_metadata(self, bid):
+        return self._bucket(bid).metadata()
+
+    def insert_one(self, bid, event):
+        return self._bucket(bid).insert(event)
+
+    def insert_many(self, bid, events):
+        return self._bucket(bid).insert(events)
+
+    def replace(self, bid, event_id, event):
+        return self._bucket(bid).replace(event_id, event)
+
+    def replace_last(self, bid, event):
+        return self._bucket(bid).replace_last(event)
+
+    def delete(self, bid, event_id):
+        return self._bucket(bid).delete(event_id)
+
+    def get_event(self, bid, event_id):
+        return self._bucket(bid).get_by_id(event_id)
+
+    def get_events(self, bid, limit, starttime=None, endtime=None):
+        return self._bucket(bid).get(limit, starttime, endtime)
+
+    def get_eventcount(self, bid, starttime=None, endtime=None):
+        return self._bucket(bid).get_eventcount(starttime, endtime)
+
+
+def open_layer(backend, tmpdir, n, layer="storage"):
+    """The object histories are run on: the storage itself, or the ViaDatastore facade over a Datastore
+    built on that storage class (same files as open_storage)."""
+    if layer == "storage":
+        return open_storage(backend, tmpdir, n)
+    from aw_datastore import Datastore
+    from aw_datastore.storages import MemoryStorage, PeeweeStorage, SqliteStorage
+    if backend == "memory":
+        return ViaDatastore(Datastore(MemoryStorage, testing=True))
+    if backend == "sqlite":
+        return ViaDatastore(Datastore(SqliteStorage, testing=True, filepath=os.path.join(tmpdir, f"s{n}.db")))
+    return ViaDatastore(Datastore(PeeweeStorage, testing=True, filepath=os.path.join(tmpdir, f"p{n}.db")))
+
+
+def close_layer(backend, st, tmpdir, n):
+    close_storage(backend, st.raw if isinstance(st, ViaDatastore) else st, tmpdir, n)
+
+
 def mk_ev(w):
     from aw_core.models import Event
     i, t, d, x = w
@@ -141,12 +234,27 @@ def canon_out(code, r):
         return [1, [ev_w(r)]]
     if isinstance(r, dict):
         return [5, n_of(r["id"]), meta_w(r)]
+    if type(r).__name__ == "Bucket" and hasattr(r, "bucket_id"):
+        return [7, n_of(r.bucket_id)]       # Datastore.create_bucket hands back a Bucket object
     raise TypeError(f"unexpected return value {r!r}")
 
 
-def apply_op(st, op):
-    """Run one concrete wire op on the storage; returns [0, out] or [1, errcode]."""
+def _is_event(x):
+    return isinstance(x, dict) and hasattr(x, "timestamp") and "timestamp" in x
+
+
+def apply_op(st, op, args=None, keep=None):
+    """Run one concrete wire op on the storage (or on a ViaDatastore facade); returns [0, out] or
+    [1, errcode].  args: optional list parallel to the op's event arguments, an entry that is not None
+    is the Event OBJECT to pass (instead of a fresh mk_ev of the wire event).  keep: optional pair of
+    lists (passed, got) to which the Event objects handed to / handed back by the call are appended."""
     code = op[0]
+
+    def arg(w, k=0):
+        o = args[k] if args is not None and k < len(args) and args[k] is not None else mk_ev(w)
+        if keep is not None:
+            keep[0].append(o)
+        return o
     try:
         if code == 0:
             _, b, (ty, cl, ho, cr, na, da) = op
@@ -164,13 +272,13 @@ def apply_op(st, op):
         elif code == 4:
             r = st.get_metadata(s_of(op[1]))
         elif code == 5:
-            r = st.insert_one(s_of(op[1]), mk_ev(op[2]))
+            r = st.insert_one(s_of(op[1]), arg(op[2]))
         elif code == 6:
-            r = st.insert_many(s_of(op[1]), [mk_ev(w) for w in op[2]])
+            r = st.insert_many(s_of(op[1]), [arg(w, k) for k, w in enumerate(op[2])])
         elif code == 7:
-            r = st.replace(s_of(op[1]), op[2], mk_ev(op[3]))
+            r = st.replace(s_of(op[1]), op[2], arg(op[3]))
         elif code == 8:
-            r = st.replace_last(s_of(op[1]), mk_ev(op[2]))
+            r = st.replace_last(s_of(op[1]), arg(op[2]))
         elif code == 9:
             r = st.delete(s_of(op[1]), op[2])
         elif code == 10:
@@ -187,6 +295,8 @@ def apply_op(st, op):
             raise RuntimeError("bad op")
     except Exception as ex:  # noqa: BLE001 -- the error class is the observation
         return [1, ERR.get(type(ex).__name__, 10)]
+    if keep is not None:
+        keep[1].extend([r] if _is_event(r) else [e for e in r if _is_event(e)] if isinstance(r, list) else [])
     return [0, canon_out(code, r)]
 
 
@@ -229,66 +339,111 @@ def resolve(h, b, univ, views, seen):
     return (max(seen) if seen else 0) + 1 + k
 
 
-def concretise(op, univ, views, seen):
-    """Symbolic op -> wire op, or None when a ["live", k] handle has nothing to name."""
+def pick_object(tag, held):
+    """["obj", "passed"|"got", k] -> (provenance, Event object) among the 6 most recent objects the
+    caller handed to ("passed") / got back from ("got") the store in this run; None when it holds none."""
+    _, src, k = tag
+    order = [0, 1] if src == "passed" else [1, 0]
+    for which in order:
+        lst = held[which]
+        if lst:
+            idx = len(lst) - 1 - (k % min(len(lst), 6))
+            return [["passed", "got"][which], idx], lst[idx]
+    return None
+
+
+def concretise_objs(op, univ, views, seen, held=None):
+    """Symbolic op -> (wire op, args, provenance) or None when a ["live", k] handle has nothing to
+    name.  args / provenance are parallel to the op's event arguments: the Event object to re-use and
+    where the caller got it from (["passed"|"got", index]), None for a fresh object."""
     name = op[0]
     code = OPCODE[name]
+    args, prov = [], []
 
     def ev(e, b):
-        h, t, d, x = e
+        h, t, d, x = e[:4]
+        if len(e) > 4 and e[4] is not None and held is not None:
+            got = pick_object(e[4], held)
+            if got is not None:
+                prov.append(got[0])
+                args.append(got[1])
+                return ev_w(got[1])          # the value the object has NOW is what is passed
         if h is None:
-            return [[], t, d, x]
-        i = resolve(h, b, univ, views, seen)
-        return None if i is None else [[i], t, d, x]
+            w = [[], t, d, x]
+        else:
+            i = resolve(h, b, univ, views, seen)
+            if i is None:
+                return None
+            w = [[i], t, d, x]
+        prov.append(None)
+        args.append(None)
+        return w
+
+    def done(wire):
+        return wire, args, prov
     if name == "create":
         ty, cl, ho, cr, na, da = op[2]
-        return [code, op[1], [ty, cl, ho, cr, opt(na), da]]
+        return done([code, op[1], [ty, cl, ho, cr, opt(na), da]])
     if name == "update":
-        return [code, op[1]] + [opt(v) for v in op[2:7]]
+        return done([code, op[1]] + [opt(v) for v in op[2:7]])
     if name in ("delete_bucket", "metadata"):
-        return [code, op[1]]
+        return done([code, op[1]])
     if name == "buckets":
-        return [code]
+        return done([code])
     if name in ("insert", "replace_last"):
         e = ev(op[2], op[1])
-        return None if e is None else [code, op[1], e]
+        return None if e is None else done([code, op[1], e])
     if name == "insert_many":
         es = [ev(e, op[1]) for e in op[2]]
         es = [e for e in es if e is not None]
-        return [code, op[1], es]
+        return done([code, op[1], es])
     if name == "replace":
         i = resolve(op[2], op[1], univ, views, seen)
-        return None if i is None else [code, op[1], i, ev(op[3], op[1])]
+        if i is None:
+            return None
+        e = ev(op[3], op[1])
+        return None if e is None else done([code, op[1], i, e])
     if name in ("delete", "get_event"):
         i = resolve(op[2], op[1], univ, views, seen)
-        return None if i is None else [code, op[1], i]
+        return None if i is None else done([code, op[1], i])
     if name == "get":
-        return [code, op[1], op[2], opt(op[3]), opt(op[4])]
+        return done([code, op[1], op[2], opt(op[3]), opt(op[4])])
     if name == "count":
-        return [code, op[1], opt(op[2]), opt(op[3])]
+        return done([code, op[1], opt(op[2]), opt(op[3])])
     raise ValueError(name)
 
 
-def run_history(backend, sym_ops, univ, tmpdir, n, quiet_from=None):
-    """-> {"ops": concrete wire ops, "steps": [[res, view...] per op]}.
+def concretise(op, univ, views, seen):
+    """Symbolic op -> wire op, or None when a ["live", k] handle has nothing to name."""
+    c = concretise_objs(op, univ, views, seen)
+    return None if c is None else c[0]
+
+
+def run_history(backend, sym_ops, univ, tmpdir, n, quiet_from=None, layer="storage"):
+    """-> {"ops": concrete wire ops, "steps": [[res, view...] per op], "layer", "objs": per op the
+    provenance of every re-used Event object (None = fresh)}.
     Ops at index >= quiet_from (an index into sym_ops) are applied WITHOUT the dump after them
     (the dump reads through get_events, which commits on sqlite): their step is [res] only, handles
-    are resolved against the last dump taken, and "final" holds the one dump taken at the end."""
-    st = open_storage(backend, tmpdir, n)
+    are resolved against the last dump taken, and "final" holds the one dump taken at the end.
+    layer "datastore": every call goes through aw_datastore.Datastore / Bucket (ViaDatastore)."""
+    st = open_layer(backend, tmpdir, n, layer)
     try:
         views = dump(st, univ)
         seen = set()
-        ops, steps = [], []
+        ops, steps, objs = [], [], []
+        held = ([], [])
         quiet_at = None
         for idx, sop in enumerate(sym_ops):
-            op = concretise(sop, univ, views, seen)
-            if op is None:
+            c = concretise_objs(sop, univ, views, seen, held)
+            if c is None:
                 continue
+            op, args, prov = c
             quiet = quiet_from is not None and idx >= quiet_from
             if quiet and quiet_at is None:
                 quiet_at = len(ops)
-            res = apply_op(st, op)
+            res = apply_op(st, op, args, held)
             ops.append(op)
+            objs.append(prov if any(p is not None for p in prov) else None)
             if quiet:
                 steps.append([res])
                 continue
@@ -296,13 +451,32 @@ def run_history(backend, sym_ops, univ, tmpdir, n, quiet_from=None):
             for v in views:
                 seen.update(live_ids(v))
             steps.append([res] + views)
-        out = {"ops": ops, "steps": steps}
+        out = {"ops": ops, "steps": steps, "layer": layer, "objs": objs}
         if quiet_from is not None:
             out["quiet_at"] = len(ops) if quiet_at is None else quiet_at
             out["final"] = dump(st, univ)
         return out
     finally:
-        close_storage(backend, st, tmpdir, n)
+        close_layer(backend, st, tmpdir, n)
+
+
+def replay_run(backend, ops, univ, layer="storage", objs=None):
+    """Re-run CONCRETE wire ops (what a replay file holds) on a fresh back end, with the same object
+    identities (objs[j] = provenance per event argument of op j) -> [[res, view...] per op]."""
+    tmpdir = tempfile.mkdtemp(prefix="awstore-replay-")
+    st = open_layer(backend, tmpdir, 0, layer)
+    try:
+        held = ([], [])
+        steps = []
+        for j, op in enumerate(ops):
+            prov = (objs[j] if objs and j < len(objs) else None) or []
+            args = [None if p is None else held[0 if p[0] == "passed" else 1][p[1]] for p in prov]
+            res = apply_op(st, op, args, held)
+            steps.append([res] + dump(st, univ))
+        return steps
+    finally:
+        close_layer(backend, st, tmpdir, 0)
+        shutil.rmtree(tmpdir, ignore_errors=True)
 
 
 _WORK = {}
@@ -317,14 +491,16 @@ def _worker(args):
             h = _WORK["hist"][n]
             sym, univ = h[0], h[1]
             q = h[2] if len(h) > 2 else None
-            out.append({be: run_history(be, sym, univ, tmpdir, n, q) for be in _WORK["backends"]})
+            layer = h[3] if len(h) > 3 else "storage"
+            out.append({be: run_history(be, sym, univ, tmpdir, n, q, layer) for be in _WORK["backends"]})
     finally:
         shutil.rmtree(tmpdir, ignore_errors=True)
     return lo, out
 
 
 def run_impl_batch(histories, backends=BACKENDS, procs=None):
-    """histories: list of (symbolic ops, universe).  One result dict {backend: run} per history.
+    """histories: list of (symbolic ops, universe[, quiet_from | None[, layer]]).  One result dict
+    {backend: run} per history.
     Forks workers (each keeps at most one PeeweeStorage open at a time)."""
     procs = procs or min(12, os.cpu_count() or 2)
     # PeeweeStorage.__init__ creates the default data dir with a check-then-mkdir: do it once
@@ -370,8 +546,10 @@ def canon_step(step):
 
 
 def run_model_batch(prop, runs):
-    """runs: list of (backend, universe, concrete ops) -> list of per-op canonical steps."""
-    cases = [common.sx([BACKEND_CODE[be], univ, ops]) for be, univ, ops in runs]
+    """runs: list of (backend, universe, concrete ops[, layer]) -> list of per-op canonical steps.
+    Layer "datastore" needs the two-layer driver (Extract/ExC02ds.v): case tag 30."""
+    cases = [common.sx(([30] if len(r) > 3 and r[3] == "datastore" else []) + [BACKEND_CODE[r[0]], r[1], r[2]])
+             for r in runs]
     outs = common.run_driver(prop, cases)
     return [[canon_step(s) for s in o] if o != [-999] else None for o in outs]
 
@@ -421,10 +599,14 @@ def rnd_window(rng, pool):
     return min(a, b), max(a, b)
 
 
-def gen_history(rng, malformed, max_ops=40):
+def gen_history(rng, malformed, max_ops=40, reuse=0.0):
     """One symbolic history over 1-3 buckets.  Well-formed = the side condition of C02's
     quantifier holds (ops address existing buckets, replace/upsert ids are live, replace_last on
-    non-empty buckets, single inserts carry no id); `malformed` switches on everything else."""
+    non-empty buckets, single inserts carry no id); `malformed` switches on everything else.
+    The event handed to replace / replace_last carries an id of its own in half of the calls (a live
+    id of the bucket - the addressed one or another -; with `malformed` any kind: foreign, dead, gone).
+    reuse = probability that an event argument is not a fresh object but one the caller already
+    passed to / got back from the store (["obj", ...] tag, see pick_object)."""
     nb = rng.choice([1, 2, 2, 3, 3])
     buckets = list(range(1, nb + 1))
     univ = buckets + [MISSING_BUCKET]
@@ -454,24 +636,38 @@ def gen_history(rng, malformed, max_ops=40):
             if bad or (malformed and rng.random() < 0.3):
                 return [rng.choice(["foreign", "foreign", "dead", "gone", "live"]), rng.randrange(0, 4)]
             return ["live", rng.randrange(0, 6)]
+
+        def carried(addressed=None):
+            """The id the event handed to replace / replace_last carries itself."""
+            if rng.random() < 0.5:
+                return None
+            if addressed is not None and rng.random() < 0.4:
+                return list(addressed)
+            return idh()
+
+        def obj(e):
+            if reuse and rng.random() < reuse:
+                return e + [["obj", rng.choice(["passed", "passed", "got"]), rng.randrange(0, 6)]]
+            return e
         if r < 0.22:
             h = idh() if (malformed and rng.random() < 0.2) else None
-            ops.append(["insert", b, rnd_ev(rng, pool, h)])
+            ops.append(["insert", b, obj(rnd_ev(rng, pool, h))])
             count[b] += 1
         elif r < 0.34:
             evs = []
-            for _ in range(rng.choice([0, 1, 2, 3, 3, 5])):
+            for _ in range(rng.choice([0, 1, 1, 2, 3, 3, 5])):
                 up = rng.random() < 0.35 and (count[b] > 0 or malformed)
-                evs.append(rnd_ev(rng, pool, idh() if up else None))
+                evs.append(obj(rnd_ev(rng, pool, idh() if up else None)))
             ops.append(["insert_many", b, evs])
             count[b] += len(evs)
         elif r < 0.44:
             if count[b] > 0 or malformed:
-                ops.append(["replace", b, idh(), rnd_ev(rng, pool)])
+                i = idh()
+                ops.append(["replace", b, i, obj(rnd_ev(rng, pool, carried(i)))])
         elif r < 0.58:
             if count[b] > 0 or bad:
                 ops.append(["get", b, 1, None, None])
-                ops.append(["replace_last", b, rnd_ev(rng, pool)])
+                ops.append(["replace_last", b, obj(rnd_ev(rng, pool, carried()))])
                 ops.append(["get", b, -1, None, None])
         elif r < 0.68:
             h = idh()
@@ -565,6 +761,99 @@ def malformed_boundary_histories():
                    ["create", b, m], ["delete_bucket", b], ["delete_bucket", b], ["metadata", b], ["buckets"]]
             for i in range(len(bad)):
                 out.append((base + [["delete", 1, ["live", 1]]] + bad[i:i + 3], [1, 2, 3, MISSING_BUCKET]))
+    return out
+
+
+def bulk_boundary_histories():
+    """Deterministic corpus for the bulk call: lists of every small length and composition
+    (0, 1, 2, 3 elements; upserts of live ids u, plain inserts n, mixed in both orders; the same id
+    twice), on a bucket of four events with a second bucket holding the same instants, followed by the
+    reads (all, by id, count).  Meant to be run on BOTH layers: the public Bucket.insert takes `an
+    Event or a list` and decides by type / length what to call."""
+    out = []
+    m = [1, 1, 1, 0, None, 0]
+    base = [["create", 1, m], ["create", 2, m]]
+    for k in range(4):
+        base += [["insert", 1, [None, BASE + k * SEC, SEC, k + 1]], ["insert", 2, [None, BASE + k * SEC, SEC, k + 1]]]
+    base += [["delete", 1, ["live", 0]], ["delete", 2, ["live", 3]]]
+
+    def n(k):
+        return [None, BASE + (5 + k) * SEC, k * SEC, 10 + k]
+
+    def u(k, x):
+        return [["live", k], BASE + k * SEC, 2 * SEC + x, 20 + x]
+    shapes = [[], [n(0)], [u(0, 0)], [u(1, 1)], [u(2, 2)], [n(0), n(1)], [u(0, 0), u(1, 1)], [u(1, 0), u(1, 1)],
+              [n(0), u(2, 1)], [u(2, 1), n(0)], [u(0, 0), u(1, 1), u(2, 2)], [n(0), n(1), n(2)],
+              [u(1, 0), n(0), u(0, 1)], [n(0), u(2, 0), n(1)]]
+    for i, shape in enumerate(shapes):
+        ops = list(base) + [["insert_many", 1, shape], ["get", 1, -1, None, None], ["count", 1, None, None],
+                            ["get_event", 1, ["live", 0]], ["get_event", 1, ["live", 1]]]
+        # a second bulk call and single calls afterwards: ids issued after the bulk call
+        nxt = shapes[(i + 3) % len(shapes)]
+        ops += [["insert_many", 1, nxt], ["insert", 1, n(3)], ["insert_many", 2, shape],
+                ["get", 1, 1, None, None], ["replace_last", 1, [None, BASE + 9 * SEC, 0, 30]],
+                ["get", 1, -1, None, None], ["get", 2, -1, None, None], ["count", 2, None, None]]
+        out.append((ops, [1, 2, MISSING_BUCKET]))
+    return out
+
+
+def carried_id_histories():
+    """Deterministic corpus: the event ARGUMENT carries an id of its own that differs from the id the
+    call addresses.  For replace (addressed id live in the bucket) and replace_last (addresses the
+    newest event) and insert / one-element bulk call, the carried id is an id of another bucket
+    (two different ones), a dead id, a deleted id, the addressed id itself, another live id of the same
+    bucket.  Three populated buckets; ids are global on the SQL back ends."""
+    out = []
+    m = [1, 2, 3, 0, 4, 1]
+    base = [["create", 1, m], ["create", 2, m], ["create", 3, m],
+            ["insert", 1, [None, BASE, SEC, 1]], ["insert", 2, [None, BASE, SEC, 2]],
+            ["insert", 1, [None, BASE + 10 * SEC, SEC, 3]], ["insert", 2, [None, BASE + 10 * SEC, SEC, 4]],
+            ["insert", 3, [None, BASE, SEC, 5]], ["insert", 2, [None, BASE + 5 * SEC, 0, 6]],
+            ["insert", 3, [None, BASE + 5 * SEC, 0, 7]], ["delete", 3, ["live", 1]]]
+    for h in (["foreign", 0], ["foreign", 1], ["foreign", 2], ["dead", 0], ["gone", 0], ["live", 0], ["live", 1], ["live", 2]):
+        e = [h, BASE + 4 * SEC, SEC, 9]
+        for a in (0, 1, 2):
+            out.append((base + [["replace", 2, ["live", a], e], ["get", 2, -1, None, None]], [1, 2, 3, MISSING_BUCKET]))
+        for b in (2, 3):
+            out.append((base + [["get", b, 1, None, None], ["replace_last", b, e], ["get", b, -1, None, None],
+                                ["insert_many", b, [e]], ["insert", b, e]], [1, 2, 3, MISSING_BUCKET]))
+    return out
+
+
+def reuse_histories():
+    """Deterministic corpus: ONE Event object handed to two (then three) calls addressed to different
+    buckets - first call x second call over insert / one-element bulk / replace / replace_last -, and an
+    Event object the store handed back (limit-1 read, read by id, result of insert) handed to a write on
+    another bucket (copying an event from bucket to bucket).  The buckets hold 3, 1 and 2 events, so the
+    ids the calls address differ from bucket to bucket."""
+    out = []
+    m = [1, 1, 1, 0, None, 0]
+    univ = [1, 2, 3, MISSING_BUCKET]
+    base = [["create", 1, m], ["create", 2, m], ["create", 3, m]]
+    for k in range(3):
+        base.append(["insert", 1, [None, BASE + k * SEC, SEC, k + 1]])
+    base.append(["insert", 2, [None, BASE, SEC, 4]])
+    base += [["insert", 3, [None, BASE, SEC, 5]], ["insert", 3, [None, BASE + SEC, SEC, 6]]]
+    x = [None, BASE + 2 * SEC, 5 * SEC, 9]
+    same = x + [["obj", "passed", 0]]
+
+    def call(kind, b, e):
+        if kind == "insert":
+            return ["insert", b, e]
+        if kind == "bulk":
+            return ["insert_many", b, [e]]
+        if kind == "replace":
+            return ["replace", b, ["live", 0], e]
+        return ["replace_last", b, e]
+    kinds = ("insert", "bulk", "replace", "replace_last")
+    for k1 in kinds:
+        for k2 in kinds:
+            out.append((base + [call(k1, 1, x), call(k2, 2, same), ["get", 1, -1, None, None],
+                                call(k2, 3, same), call(k1, 2, same)], univ))
+    got = x + [["obj", "got", 0]]
+    for read in (["get", 1, 1, None, None], ["get_event", 1, ["live", 1]], ["insert", 1, x]):
+        for k2 in kinds:
+            out.append((base + [read, call(k2, 2, got), ["get", 1, -1, None, None], call(k2, 3, got)], univ))
     return out
 
 
